@@ -238,6 +238,11 @@ def finish(pid, tier, seed, cfg, reports, drift, extra, t0):
             if res.get("reproduced"):
                 best = cand
                 break
+        if any(x.get("needs_native_confirmation") for x in obs) and not best.get("reproduced"):
+            # obtained with re-assigned loop invariants (the function's loop structure drifted from the contract): without a native
+            # reproduction the failed obligation may be an artefact of the lost invariants -- undecided, not a violation
+            undecided.append({"function": fid, "obligation": best["obligation"], "reason": "loop structure drifted from the contract and the counter-model did not reproduce natively (replay: %s)" % best["replay"]})
+            continue
         violations.append(best)
     seen_kf = set()
     for k in known_hits:
